@@ -33,14 +33,26 @@ ALIASED = {
 }
 
 
+# The known properties, transcribed from the documentation (docs/source/known-properties.rst); the attribute is
+# the lower-cased key.  Not taken from the classes by introspection: a property that disappears from a class
+# must be noticed, not silently skipped.
+_SIMFILE_BASE = ("TITLE SUBTITLE ARTIST TITLETRANSLIT SUBTITLETRANSLIT ARTISTTRANSLIT GENRE CREDIT BANNER BACKGROUND LYRICSPATH "
+                 "CDTITLE MUSIC OFFSET BPMS STOPS DELAYS TIMESIGNATURES TICKCOUNTS INSTRUMENTTRACK SAMPLESTART SAMPLELENGTH DISPLAYBPM "
+                 "SELECTABLE BGCHANGES FGCHANGES KEYSOUNDS ATTACKS").split()
+_SSC_SIMFILE = "VERSION ORIGIN PREVIEWVID JACKET CDIMAGE DISCIMAGE PREVIEW MUSICLENGTH LASTSECONDHINT WARPS LABELS COMBOS SPEEDS SCROLLS FAKES".split()
+_CHART_BASE = "STEPSTYPE DESCRIPTION DIFFICULTY METER RADARVALUES NOTES".split()
+_SSC_CHART = ("CHARTNAME CHARTSTYLE CREDIT MUSIC BPMS STOPS DELAYS TIMESIGNATURES TICKCOUNTS COMBOS WARPS SPEEDS SCROLLS FAKES LABELS "
+              "ATTACKS OFFSET DISPLAYBPM").split()
+DOCUMENTED = {
+    "SMSimfile": _SIMFILE_BASE,
+    "SSCSimfile": _SIMFILE_BASE + _SSC_SIMFILE,
+    "SSCChart": _CHART_BASE + _SSC_CHART,
+}
+
+
 def known_properties(cls):
-    """attribute name -> standard key, found by introspection of item_property descriptors"""
-    out = {}
-    for klass in reversed(cls.__mro__):
-        for name, val in vars(klass).items():
-            if isinstance(val, property) and not name.startswith("_") and name not in ("charts",):
-                out[name] = name.upper()
-    return out
+    """attribute name -> standard key, from the documented table"""
+    return {k.lower(): k for k in DOCUMENTED[cls.__name__]}
 
 
 # ---------------------------------------------------------------------------
